@@ -4,10 +4,25 @@ import json, os, sys
 sys.path.insert(0, os.path.dirname(os.path.dirname(os.path.abspath(__file__))))
 os.environ["VERIF_NO_CACHE"] = "1"
 from checks.e1common import run_all, BASELINE
-res = run_all("quick")
+import ast
+from checks.common import REPO
+from engine import alpha
+# the baseline is the reference for renamings too: it must be rebuilt from the contracts as written (no adaptation)
+if os.path.exists(BASELINE):
+    os.rename(BASELINE, BASELINE + ".prev")
+try:
+    res = run_all("quick")
+finally:
+    if os.path.exists(BASELINE + ".prev"):
+        os.rename(BASELINE + ".prev", BASELINE)
 out = {}
+trees = {}
 for name, d in res.items():
-    out[name] = {"fhash": d["fhash"], "discharged": sorted(v["id"] for v in d["vcs"] if v["status"] == "discharged"),
+    rel, qual = name.split(":", 1)
+    if rel not in trees:
+        trees[rel] = ast.parse(open(os.path.join(REPO, rel), encoding="utf-8").read())
+    b, shp = alpha.describe(trees[rel], qual)
+    out[name] = {"fhash": d["fhash"], "binders": b, "shape": shp, "discharged": sorted(v["id"] for v in d["vcs"] if v["status"] == "discharged"),
                  "not_discharged": sorted(v["id"] for v in d["vcs"] if v["status"] != "discharged"), "unsupported": d["unsupported"]}
 json.dump(out, open(BASELINE, "w"), indent=1)
 print(sum(len(v["discharged"]) for v in out.values()), "discharged;", sum(len(v["not_discharged"]) for v in out.values()), "not;",
